@@ -176,6 +176,9 @@ def run(shard, ctx):
     elif kind == "meter":
         units = list(range(-64, 4097)) + [2 ** k for k in range(13, 1024)] + [2 ** k + 1 for k in range(13, 60)] + \
             [3 * 2 ** k for k in range(11, 60)]
+        # integers with more than 53 significant bits (no float holds them): even non-powers next to powers, and powers
+        units += [2 ** k + 2 for k in range(50, 130)] + [2 ** k - 2 for k in range(50, 130)] + [2 ** k + 2 ** (k - 56) for k in range(57, 130)] + \
+            [(2 ** 53 + 1) * 2 ** j for j in range(1, 40)] + [2 ** k for k in range(1024, 1100)] + [2 ** 1030 + 2 ** 3, 10 ** 30, 6 ** 40]
         for u in units:
             check_unit(ctx, u)
         funits = [k / 8.0 for k in range(-16, 130)] + [0.0, -0.0, 5e-324, 2.2250738585072014e-308, 1e-5, 0.1, 1e308,
@@ -203,8 +206,11 @@ def run(shard, ctx):
                 u = float(2 ** rng.randint(0, 1023)) * rng.choice([1, 1, 1.5, 0.75, 1.0000001])
             elif r < 0.85:
                 u = rng.randint(-10 ** 6, 10 ** 9)
-            else:
+            elif r < 0.93:
                 u = 2 ** rng.randint(0, 1023) + rng.choice([0, 0, 1, -1])
+            else:
+                k = rng.randint(56, 300)
+                u = 2 ** k + rng.choice([0, 2, -2, 2 ** rng.randint(1, k - 54), 6, 2 ** (k - 1)])
             if rng.random() < 0.5:
                 check_unit(ctx, u)
             else:
